@@ -731,14 +731,23 @@ def jobs(tier, seed):
         for numba in (False, True):
             out.append({"name": "loads/%s/%s" % (s["name"], "numba" if numba else "numpy"), "kind": "loads", "spec": s,
                         "numba": numba})
-    for s in [catalog.w_oos(), catalog.w_fc_off(), catalog.g_components()]:
+    # out-of-service elements that prescribe a mass flow, between junctions that stay supplied through a parallel pipe
+    fc_oos = {"name": "g_fc_oos", "fluid": "gas", "nj": 3, "elems": [
+        E("ext_grid", j=0), E("pipe", f=0, to=1), E("pipe", f=1, to=2), E("flow_control", f=1, to=2, in_service=False),
+        E("sink", j=2), E("sink", j=1)]}
+    hc_oos = {"name": "w_hc_oos", "fluid": "water", "nj": 4, "elems": [
+        E("circ_pump_pressure", ret=3, flow=0), E("pipe", f=0, to=1, u=5.0), E("pipe", f=2, to=3, u=5.0),
+        E("heat_consumer", f=1, to=2, mdot=1.0, qext_w=20000.0),
+        E("heat_consumer", f=1, to=2, mdot=0.6, qext_w=9000.0, in_service=False)]}
+    for s in [catalog.w_oos(), catalog.w_fc_off(), catalog.g_components(), fc_oos, hc_oos]:
         s2 = copy.deepcopy(s)
         if s2["name"] == "g_components":
             s2["elems"][3]["opened"] = False
             s2["elems"].append(E("sink", j=1, in_service=False))
         # junctions stay; only elements are compared
         s2["jis"] = None
-        out.append({"name": "absent/%s" % s2["name"], "kind": "absent", "spec": s2, "numba": False, "pfmode": "hydraulics"})
+        out.append({"name": "absent/%s" % s2["name"], "kind": "absent", "spec": s2, "numba": False,
+                    "pfmode": "sequential" if s2["name"] == "w_hc_oos" else "hydraulics"})
     for s in [catalog.w_line3(), catalog.w_mesh4(), catalog.w_components()]:
         out.append({"name": "shift/%s" % s["name"], "kind": "shift", "spec": s, "numba": False})
     for S in ([2, 3] if tier == "quick" else [2, 3, 4]):
